@@ -310,12 +310,13 @@ theorem kept_primary_key (tn : String) (refl : Bool) (s : Schema) (ops : List Ba
 
 /-- **C10.schema (indexes).** An index of the original table that no `drop_index` names is still in
 `self.indexes` after any accepted operation sequence, and `_gather_indexes_from_both_tables` (when it does not
-raise) re-creates it after the rename with the same name and uniqueness, over the final names of its columns. -/
+raise) re-creates it after the rename with the same name, the same uniqueness and the same `WHERE` predicate
+(partial indexes: `sqlite_where`), over the final names of its columns. -/
 theorem kept_indexes (tn : String) (refl : Bool) (s : Schema) (ops : List BatchOp) (st : State) (ix : Index)
     (l : List Index) (hix : alookup ix.name ((s.indexes.map (fun i => (i.name, i)))) = some ix)
     (hd : ∀ o ∈ ops, dropsIndex ix.name o = false)
     (hok : (State.init tn refl s).applyOps ops = .ok st) (hg : st.gatherIndexes = .ok l) :
-    ∃ ix' ∈ l, ix'.name = ix.name ∧ ix'.unique = ix.unique ∧
+    ∃ ix' ∈ l, ix'.name = ix.name ∧ ix'.unique = ix.unique ∧ ix'.where_ = ix.where_ ∧
       ix'.cols = ix.cols.map (fun n => if ahas n st.columns then st.finalName n else n) := by
   have h1 : alookup ix.name st.indexes = some ix := index_kept_applyOps ops _ _ (by simpa [State.init] using hix) hd hok
   obtain ⟨k', hm⟩ := mem_of_alookup h1
@@ -325,7 +326,7 @@ theorem kept_indexes (tn : String) (refl : Bool) (s : Schema) (ops : List BatchO
   · cases hg
   · split at hg
     · cases hg
-      refine ⟨{ ix with cols := ix.cols.map (fun n => if ahas n st.columns then st.finalName n else n) }, ?_, rfl, rfl, rfl⟩
+      refine ⟨{ ix with cols := ix.cols.map (fun n => if ahas n st.columns then st.finalName n else n) }, ?_, rfl, rfl, rfl, rfl⟩
       simp only [List.mem_append, List.mem_map]
       exact .inl ⟨(k', ix), hm, rfl⟩
     · cases hg
@@ -373,6 +374,10 @@ example : check10 [] "t" C11.w_t0 [] { C11.w_t0 with rows := [[.int 1, .int 7]] 
 example : check10 [] "t" C11.w_t0 [] { C11.w_t0 with rows := [] } [] ≠ [] := by decide
 example : check10 [] "t" { C11.w_t0 with schema := { C11.w_t0.schema with indexes := [{ name := "ix", cols := ["a"], unique := false }] } }
     [] C11.w_t0 [] ≠ [] := by decide
+/-- … and a partial index that came back without its `WHERE` predicate -/
+example : check10 [] "t"
+    { C11.w_t0 with schema := { C11.w_t0.schema with indexes := [{ name := "ix", cols := ["a"], unique := true, where_ := some "a > 0" }] } }
+    [] { C11.w_t0 with schema := { C11.w_t0.schema with indexes := [{ name := "ix", cols := ["a"], unique := true }] } } [] ≠ [] := by decide
 example : check10 [] "t" C11.w_t0 [] C11.w_t0 ["_alembic_tmp_t"] ≠ [] := by decide
 example : check10 [] "t" C11.w_t0 [] C11.w_t0 [] = [] := by decide
 
